@@ -2,7 +2,7 @@
   XotModel.Lemmas.C02Spellings — closed data for the non-vacuity examples and the rejection examples
   of Props/C02.lean (imported by nothing else), and `wellNsDoc_wrap` (the wrapper element of
   `C02_fragment_spelled_ns` keeps a spelling well formed): spellings (`SNode` / `NSNode`) with the byte positions
-  a tokenizer would report, and two processing-instruction tokens with the reserved target.
+  a tokenizer would report (an absent prefix: offset 0), and two processing-instruction tokens with the reserved target.
 
     spelledExample      <a k="x&amp;"><!--c-->t<![CDATA[ CR LF ]]><b/></a>
     spelledNsExample    <a xmlns="d" xmlns:p="u" p:k="v&amp;"><p:b xmlns:p="w" p:j="1"/><c xmlns="" xml:id=" i "/>t</a>
@@ -32,8 +32,8 @@ def spelledExample : List SNode :=
     — a default namespace, a prefixed element, prefixed attributes, `p` shadowed on the nested
     element, `xmlns=""`, an `xml:id`. -/
 def spelledNsExample : List NSNode :=
-  [.elem ⟨[], 1⟩ ⟨['a'], 1⟩ ⟨[], 0⟩
-    [{ pfx := ⟨[], 3⟩, loc := ⟨xmlnsStr, 3⟩, pieces := [.lit 'd'], vstart := 10, junk := ⟨[], 0⟩ },
+  [.elem ⟨[], 0⟩ ⟨['a'], 1⟩ ⟨[], 0⟩
+    [{ pfx := ⟨[], 0⟩, loc := ⟨xmlnsStr, 3⟩, pieces := [.lit 'd'], vstart := 10, junk := ⟨[], 0⟩ },
      { pfx := ⟨xmlnsStr, 13⟩, loc := ⟨['p'], 19⟩, pieces := [.lit 'u'], vstart := 22, junk := ⟨[], 0⟩ },
      { pfx := ⟨['p'], 25⟩, loc := ⟨['k'], 27⟩, pieces := [.lit 'v', .named ['a', 'm', 'p']], vstart := 30,
        junk := ⟨[], 0⟩ }]
@@ -42,13 +42,13 @@ def spelledNsExample : List NSNode :=
        [{ pfx := ⟨xmlnsStr, 43⟩, loc := ⟨['p'], 49⟩, pieces := [.lit 'w'], vstart := 52, junk := ⟨[], 0⟩ },
         { pfx := ⟨['p'], 55⟩, loc := ⟨['j'], 57⟩, pieces := [.lit '1'], vstart := 60, junk := ⟨[], 0⟩ }]
        ⟨['/', '>'], 62⟩,
-     .empty ⟨[], 65⟩ ⟨['c'], 65⟩ ⟨[], 0⟩
-       [{ pfx := ⟨[], 67⟩, loc := ⟨xmlnsStr, 67⟩, pieces := [], vstart := 74, junk := ⟨[], 0⟩ },
+     .empty ⟨[], 0⟩ ⟨['c'], 65⟩ ⟨[], 0⟩
+       [{ pfx := ⟨[], 0⟩, loc := ⟨xmlnsStr, 67⟩, pieces := [], vstart := 74, junk := ⟨[], 0⟩ },
         { pfx := ⟨['x', 'm', 'l'], 77⟩, loc := ⟨['i', 'd'], 81⟩, pieces := [.lit ' ', .lit 'i', .lit ' '],
           vstart := 85, junk := ⟨[], 0⟩ }]
        ⟨['/', '>'], 89⟩,
      .chars [.txt [.lit 't'] 91]]
-    ⟨[], 94⟩ ⟨['a'], 94⟩ ⟨['<', '/', 'a', '>'], 92⟩]
+    ⟨[], 0⟩ ⟨['a'], 94⟩ ⟨['<', '/', 'a', '>'], 92⟩]
 
 /-- `<p:a xmlns:p="u" xmlns:q="u" xmlns:xml="http://www.w3.org/XML/1998/namespace"><q:a xml:id=" i  j "></q:a></p:a>`
     — two prefixes for one namespace used for different elements, every end tag as its start tag;
@@ -115,11 +115,13 @@ namespace XotModel
 /-- Wrapping a well-formed spelling in one unprefixed element without attributes `<w>…</w>` gives a
     well-formed spelling. -/
 theorem wellNsDoc_wrap {sns : List NSNode} (hw : WellNsDoc sns) (w : StrSpan) (pstart : Nat) (junk openSp : StrSpan)
-    (cw : StrSpan) (cpstart : Nat) (closeSp : StrSpan) (hcw : cw.text = w.text) :
+    (cw : StrSpan) (cpstart : Nat) (closeSp : StrSpan) (hcw : cw.text = w.text)
+    (hps : pstart = 0) (hcps : cpstart = 0) :
     WellNsDoc [NSNode.elem ⟨[], pstart⟩ w junk [] openSp sns ⟨[], cpstart⟩ cw closeSp] := by
+  subst hps hcps
   refine ⟨⟨⟨⟨fun a ha => by simp at ha, fun d hd => by simp [declsOf] at hd, List.nodup_nil, List.nodup_nil,
-      fun a ha => by simp [ordinary] at ha⟩,
-    rfl, rfl, hcw, hw.2.1, hw.1⟩, trivial⟩, rfl, ?_⟩
+      fun a ha => by simp [ordinary] at ha, fun a ha => by simp at ha⟩,
+    rfl, rfl, hcw, hw.2.1, hw.1, rfl, rfl⟩, trivial⟩, rfl, ?_⟩
   have := hw.2.2
   simpa [NSNode.denote.denoteList, NSNode.denote, NPNode.ids.idsList, NPNode.ids, attrIds, attrsOf, ordinary,
     declsOf, Scope.push] using this
